@@ -146,6 +146,33 @@ def coq_term(path, op, cls, state, k):
     return f'("{path}", "{OPS[op]}", {vlib.coq_bool(valid)}, {vlib.coq_bool(tf)}, {vlib.coq_bool(ol)}, {snd}, {res})'
 
 
+# ---------------------------------------------------------------- the error a C completion callback receives: the conversion, called directly
+IO_KINDS = ['NotFound', 'PermissionDenied', 'ConnectionRefused', 'ConnectionReset', 'ConnectionAborted', 'NotConnected', 'AddrInUse', 'AddrNotAvailable',
+            'BrokenPipe', 'AlreadyExists', 'WouldBlock', 'InvalidInput', 'InvalidData', 'TimedOut', 'WriteZero', 'Interrupted', 'Unsupported', 'UnexpectedEof',
+            'OutOfMemory', 'Other']
+STD_EXC = {1: 'IllegalFunction', 2: 'IllegalDataAddress', 3: 'IllegalDataValue', 4: 'ServerDeviceFailure', 5: 'Acknowledge',
+           6: 'ServerDeviceBusy', 8: 'MemoryParityError', 10: 'GatewayPathUnavailable', 11: 'GatewayTargetDeviceFailedToRespond'}
+ERR_ALIAS = {'Io': 'IoError', 'BadFrame': 'BadFraming', 'Internal': 'InternalError'}
+
+
+def check_error_classes(ctx, cases):
+    """C10 classifies completions (Io / ResponseTimeout / NoConnection / Shutdown / ...): the C callback must be told the class the
+    Rust API reports - ffi::RequestError::from(e) for every variant x io::ErrorKind x exception byte (harness ffi_errconv)"""
+    impl = ctx.harness('ffi_errconv', cases, timeout=300)
+    bad = 0
+    for c, i in zip(cases, impl):
+        p = c.split()
+        want = ('ModbusException' + STD_EXC.get(int(p[1]), 'Unknown')) if p[0] == 'Exception' else ERR_ALIAS.get(p[0], p[0])
+        if i != want:
+            bad += 1
+            if bad <= 3:
+                val = f'RequestError::Io(ErrorKind::{p[1]})' if p[0] == 'Io' else (f'RequestError::Exception(ExceptionCode::from({p[1]}))' if p[0] == 'Exception' else f'RequestError::{p[0]}')
+                ctx.violation('completion-class.c-abi-conversion', f'a request that completes with {val} through the Rust API is reported to the C completion callback as {i}; its class is {want}'
+                              + (' (an I/O error is an I/O error whatever its kind: ResponseTimeout is the class of a request whose reply did not arrive in time)' if p[0] == 'Io' else ''),
+                              {'cb_cases': [['errconv', c]], 'impl': i, 'spec': want})
+    ctx.oblige('correspondence:completion-class-through-c-abi', bad == 0, f'{bad} disagreements on {len(cases)} error values')
+
+
 def run(ctx):
     mine = bool(ctx.replay and 'cb_cases' in ctx.replay)
     if ctx.replay and not mine:
@@ -159,8 +186,12 @@ def run(ctx):
     if mine:
         sub = [c[1] for c in ctx.replay['cb_cases'] if c[0] == 'sub']
         life = [c[1] for c in ctx.replay['cb_cases'] if c[0] == 'life']
+        errs = [c[1] for c in ctx.replay['cb_cases'] if c[0] == 'errconv']
     else:
         sub, life = gen_sub(), gen_life()
+        errs = [f'Io {k}' for k in IO_KINDS] + [f'Exception {b}' for b in range(256)] + ['Internal', 'NoConnection', 'BadFrame', 'Shutdown', 'ResponseTimeout', 'BadRequest', 'BadResponse']
+    if errs:
+        check_error_classes(ctx, errs)
     impl = ctx.harness('cb_submit', sub + life, timeout=900)
     impl_sub, impl_life = impl[:len(sub)], impl[len(sub):]
 
